@@ -50,7 +50,7 @@ func (c *Case) size() int {
 		}
 		for _, nd := range g.Nodes {
 			n += 3 + nd.PS + len(nd.Preds)
-			for _, b := range []bool{nd.Pre, nd.Post, nd.SPre, nd.SPost, nd.Sub >= 0, nd.DelayUs > 0, nd.Fail > 0} {
+			for _, b := range []bool{nd.Pre, nd.Post, nd.SPre, nd.SPost, nd.Sub >= 0, nd.DelayUs > 0, nd.Fail > 0, nd.FailPanic} {
 				if b {
 					n++
 				}
@@ -181,6 +181,7 @@ func (c *Case) candidates() []*Case {
 			try(func(d *Case) bool { n := &d.Forest[gi].Nodes[ni]; ok := n.SPre; n.SPre = false; return ok })
 			try(func(d *Case) bool { n := &d.Forest[gi].Nodes[ni]; ok := n.SPost; n.SPost = false; return ok })
 			try(func(d *Case) bool { n := &d.Forest[gi].Nodes[ni]; ok := n.DelayUs > 0; n.DelayUs = 0; return ok })
+			try(func(d *Case) bool { n := &d.Forest[gi].Nodes[ni]; ok := n.FailPanic; n.FailPanic = false; return ok })
 			try(func(d *Case) bool {
 				n := &d.Forest[gi].Nodes[ni]
 				if len(n.Preds) < 2 {
@@ -265,7 +266,7 @@ func (e engine) Shrink(ci any, stillFails func(any) bool) any {
 	}
 	first := e.Run(c)
 	switch first.Sig {
-	case "", "hang", "panic":
+	case "", "hang", "panic", "stuck": // (each attempt would take 15-20 s)
 		return ci
 	}
 	tries := 1
